@@ -80,14 +80,6 @@ Lemma ok_sound ls i id t :
   ok ls -> nth_error ls i = Some (Code id (Some t)) -> go_line_of ls i = Some t.
 Proof. apply chk_sound. Qed.
 
-(* ------------------------------------------------------------------ references, well-formed docs *)
-
-Lemma noload_app U a b : noload U (a ++ b) = noload U a && noload U b.
-Proof. apply forallb_app. Qed.
-
-Lemma noload_nil_U rs : noload [] rs = true.
-Proof. induction rs; simpl; auto. Qed.
-
 (* ------------------------------------------------------------------ the compiler keeps every tagged line anchored *)
 
 Ltac bind_in H :=
@@ -100,48 +92,66 @@ Ltac bind_in H :=
 Ltac split_guard :=
   repeat match goal with
   | H : _ && _ = true |- _ => apply andb_prop in H; destruct H
-  | H : noload _ (_ ++ _) = true |- _ => rewrite noload_app in H
   end.
+
+Definition all_ok (o : list (N * list outline)) : Prop := forall g ls, In (g, ls) o -> ok ls.
+
+Lemma all_ok_snoc o g ls : all_ok o -> ok ls -> all_ok (o ++ [(g, ls)]).
+Proof.
+  intros H1 H2 g' ls' Hin. apply in_app_or in Hin as [Hin|Hin]; [eauto|].
+  destruct Hin as [E|[]]. inversion E; subst. exact H2.
+Qed.
+
+Lemma ok_print_func p dp hd dk sh bl :
+  doc_ok p dp hd dk = true -> ok bl -> ok (print_func p dp hd dk sh bl).
+Proof.
+  intros Hd Hb. unfold print_func, doc_ok in *.
+  assert (Hrest : ok (bl ++ [C0])) by (apply ok_app; [exact Hb|exact ok_C0]).
+  destruct hd.
+  - destruct p as [[pf pl]|]; [|discriminate]. destruct dp as [[df dl]|]; [|discriminate].
+    apply andb_prop in Hd as [H1 H2]. apply N.eqb_eq in H1, H2. subst.
+    unfold ok. simpl. apply chk_docs. rewrite N2Nat.id. simpl. split; auto. apply chk_None_any. exact Hrest.
+  - apply N.eqb_eq in Hd. subst dk. simpl. destruct p as [[pf pl]|]; unfold ok; simpl.
+    + split; auto. apply chk_None_any. exact Hrest.
+    + exact Hrest.
+Qed.
+
+Lemma find_func_In pr g d : find_func pr g = Some d -> In d pr.
+Proof.
+  induction pr as [|x t IH]; simpl; [discriminate|].
+  destruct x as [g' ? ? ? ? ? ?|? ? ? ? ? ?].
+  - destruct (N.eqb g g'); [intros H; inversion H; auto|auto].
+  - auto.
+Qed.
 
 Section Sound.
 Variable pr : prog.
+Hypothesis Hwf : wf_prog pr = true.
 
-Definition keeps (st st' : state) : Prop := unl st' = unl st /\ outf st' = outf st.
-
+(* P: the emitted lines are anchored, the functions emitted on the way are anchored *)
+Definition P_res (st : state) (ls : list outline) (st' : state) : Prop :=
+  ok ls /\ all_ok (outf st').
 Definition P_stmt (f : nat) : Prop := forall s st ls st',
-  compile_stmt pr f s st = Ok (ls, st') -> noload (unl st) (refs_stmt s) = true -> wf_stmt s = true ->
-  ok ls /\ keeps st st'.
+  compile_stmt pr f s st = Ok (ls, st') -> wf_stmt s = true -> all_ok (outf st) -> P_res st ls st'.
 Definition P_stmts (f : nat) : Prop := forall b st ls st',
-  compile_stmts pr f b st = Ok (ls, st') -> noload (unl st) (refs_stmts b) = true -> wf_stmts b = true ->
-  ok ls /\ keeps st st'.
+  compile_stmts pr f b st = Ok (ls, st') -> wf_stmts b = true -> all_ok (outf st) -> P_res st ls st'.
 Definition P_ostmt (f : nat) : Prop := forall o st ls st',
-  compile_ostmt pr f o st = Ok (ls, st') -> noload (unl st) (refs_ostmt o) = true -> wf_ostmt o = true ->
-  ok ls /\ keeps st st'.
+  compile_ostmt pr f o st = Ok (ls, st') -> wf_ostmt o = true -> all_ok (outf st) -> P_res st ls st'.
+(* compiling the expressions of a header never changes cb.comments: function literals restore it
+   (compileFuncLit) and so does a lazily loaded function body (loadFuncBody) *)
 Definition P_parts (f : nat) : Prop := forall ps st ls st',
-  compile_parts pr f ps st = Ok (ls, st') -> noload (unl st) (refs_parts ps) = true -> wf_parts ps = true ->
-  ok ls /\ keeps st st' /\ cm st' = cm st.
+  compile_parts pr f ps st = Ok (ls, st') -> wf_parts ps = true -> all_ok (outf st) ->
+  P_res st ls st' /\ cm st' = cm st.
 Definition P_els (f : nat) : Prop := forall e st ls st',
-  compile_els pr f e st = Ok (ls, st') -> noload (unl st) (refs_els e) = true -> wf_els e = true ->
-  ok ls /\ keeps st st'.
+  compile_els pr f e st = Ok (ls, st') -> wf_els e = true -> all_ok (outf st) -> P_res st ls st'.
 Definition P_clauses (f : nat) : Prop := forall cs st ls st',
-  compile_clauses pr f cs st = Ok (ls, st') -> noload (unl st) (refs_clauses cs) = true -> wf_clauses cs = true ->
-  ok ls /\ keeps st st'.
+  compile_clauses pr f cs st = Ok (ls, st') -> wf_clauses cs = true -> all_ok (outf st) -> P_res st ls st'.
+Definition P_load (f : nat) : Prop := forall g st st',
+  load_func pr f g st = Ok st' -> all_ok (outf st) -> all_ok (outf st') /\ cm st' = cm st.
 
 Definition P_all (f : nat) : Prop :=
-  P_stmt f /\ P_stmts f /\ P_ostmt f /\ P_parts f /\ P_els f /\ P_clauses f.
+  P_stmt f /\ P_stmts f /\ P_ostmt f /\ P_parts f /\ P_els f /\ P_clauses f /\ P_load f.
 
-Lemma keeps_refl st : keeps st st. Proof. split; reflexivity. Qed.
-Lemma keeps_trans a b c : keeps a b -> keeps b c -> keeps a c.
-Proof. intros [A B] [C D]. split; congruence. Qed.
-Lemma keeps_set_cm_l c st st' : keeps (set_cm c st) st' -> keeps st st'.
-Proof. intros H. exact H. Qed.
-Lemma keeps_set_cm_r c st st' : keeps st st' -> keeps st (set_cm c st').
-Proof. intros H. exact H. Qed.
-
-Lemma ok_header id p init il : ok il -> ok (header id p init il) \/ True.
-Proof. auto. Qed.
-
-(* the header line of a statement whose comment is its own position *)
 Lemma ok_dir_header (p : pos) id init il rest :
   ok il -> ok rest -> ok (dir_line p ++ header id p init il ++ rest).
 Proof.
@@ -150,29 +160,27 @@ Proof.
   - apply ok_dir_any. apply ok_cons_C0. apply ok_app; auto.
 Qed.
 
-Ltac norm := unfold comment_stmt, set_cm, set_unl in *; cbn [unl cm outf] in *.
 Ltac ih IH E :=
   apply IH in E;
-  [ | unfold comment_stmt, set_cm, set_unl; cbn [unl cm outf]; first [assumption | congruence] | assumption ];
-  unfold keeps, comment_stmt, set_cm, set_unl in E; cbn [unl cm outf] in E.
-Ltac fin_keeps := unfold keeps, comment_stmt, set_cm, set_unl in *; cbn [unl cm outf] in *; intuition congruence.
+  [ | assumption | unfold comment_stmt, comment_decl, set_cm, set_unl; cbn [unl cm outf]; assumption ];
+  unfold P_res, comment_stmt, set_cm, set_unl in E; cbn [unl cm outf] in E.
 
 Lemma P_step f : P_all f -> P_all (S f).
 Proof.
-  intros (IHs & IHss & IHo & IHp & IHe & IHc).
-  unfold P_all. unfold P_stmt, P_stmts, P_ostmt, P_parts, P_els, P_clauses in *. refine (conj _ (conj _ (conj _ (conj _ (conj _ _))))).
+  intros (IHs & IHss & IHo & IHp & IHe & IHc & IHl).
+  unfold P_all. unfold P_stmt, P_stmts, P_ostmt, P_parts, P_els, P_clauses, P_load in *.
+  refine (conj _ (conj _ (conj _ (conj _ (conj _ (conj _ _)))))).
   - (* compile_stmt *)
-    intros s st ls st' H Hn Hw. destruct s; cbn [compile_stmt refs_stmt wf_stmt] in H, Hn, Hw.
+    intros s st ls st' H Hw Ha. unfold P_res. destruct s; cbn [compile_stmt wf_stmt] in H, Hw.
     + (* SSimple *)
       bind_in H. inversion H; subst; clear H.
-      ih IHp E. destruct E as (Hok & Hk & Hc).
-      rewrite Hc. split; [apply ok_dir_code; exact Hok | fin_keeps].
+      ih IHp E. destruct E as ((Hok & Ha1) & Hc).
+      rewrite Hc. split; [apply ok_dir_code; exact Hok | exact Ha1].
     + (* SDecl *)
       bind_in H. inversion H; subst; clear H. split_guard.
-      assert (Hu : unl (comment_decl p docp hasdoc st) = unl st) by (destruct p, hasdoc; reflexivity).
       assert (Ho : outf (comment_decl p docp hasdoc st) = outf st) by (destruct p, hasdoc; reflexivity).
-      apply IHp in E; [|rewrite Hu; assumption|assumption].
-      destruct E as (Hok & Hk & Hc). split; [|fin_keeps].
+      apply IHp in E; [|assumption|rewrite Ho; assumption].
+      destruct E as ((Hok & Ha1) & Hc). split; [|exact Ha1].
       rewrite Hc. unfold doc_ok in H. destruct hasdoc.
       * destruct p as [[pf pl]|]; [|discriminate]. destruct docp as [[df dl]|]; [|discriminate].
         apply andb_prop in H as [H1 H2]. apply N.eqb_eq in H1, H2. subst.
@@ -180,130 +188,196 @@ Proof.
       * apply N.eqb_eq in H. subst docskip. simpl. destruct p as [[pf pl]|]; apply ok_dir_code; exact Hok.
     + (* SBlock *)
       bind_in H. inversion H; subst; clear H.
-      ih IHss E. destruct E as (Hok & Hk).
-      split; [|fin_keeps]. apply ok_dir_any. apply ok_cons_C0. apply ok_app; [exact Hok|exact ok_C0].
+      ih IHss E. destruct E as (Hok & Ha1).
+      split; [|exact Ha1]. apply ok_dir_any. apply ok_cons_C0. apply ok_app; [exact Hok|exact ok_C0].
     + (* SIf *)
       bind_in H. bind_in H. bind_in H. bind_in H. inversion H; subst; clear H. split_guard.
-      ih IHo E. destruct E as (Ho1 & U1 & O1).
-      ih IHp E0. destruct E0 as (Ho2 & (U2 & O2) & _).
-      ih IHss E1. destruct E1 as (Ho3 & U3 & O3).
-      ih IHe E2. destruct E2 as (Ho4 & U4 & O4).
-      split; [|fin_keeps].
+      ih IHo E. destruct E as (Ho1 & A1).
+      ih IHp E0. destruct E0 as ((Ho2 & A2) & _).
+      ih IHss E1. destruct E1 as (Ho3 & A3).
+      ih IHe E2. destruct E2 as (Ho4 & A4).
+      split; [|exact A4].
       unfold comment_stmt, set_cm; cbn [cm]. apply ok_dir_header; auto. repeat apply ok_app; auto.
     + (* SFor *)
       bind_in H. bind_in H. bind_in H. bind_in H. inversion H; subst; clear H. split_guard.
-      ih IHo E. destruct E as (Ho1 & U1 & O1).
-      ih IHp E0. destruct E0 as (Ho2 & (U2 & O2) & _).
-      ih IHss E1. destruct E1 as (Ho3 & U3 & O3).
-      ih IHo E2. destruct E2 as (Ho4 & U4 & O4).
-      split; [|fin_keeps].
+      ih IHo E. destruct E as (Ho1 & A1).
+      ih IHp E0. destruct E0 as ((Ho2 & A2) & _).
+      ih IHss E1. destruct E1 as (Ho3 & A3).
+      ih IHo E2. destruct E2 as (Ho4 & A4).
+      split; [|exact A4].
       unfold comment_stmt, set_cm; cbn [cm]. apply ok_dir_header; auto. repeat apply ok_app; auto. exact ok_C0.
     + (* SRange *)
       bind_in H. bind_in H. inversion H; subst; clear H. split_guard.
-      ih IHp E. destruct E as (Ho1 & (U1 & O1) & _).
-      ih IHss E0. destruct E0 as (Ho2 & U2 & O2).
-      split; [|fin_keeps].
+      ih IHp E. destruct E as ((Ho1 & A1) & _).
+      ih IHss E0. destruct E0 as (Ho2 & A2).
+      split; [|exact A2].
       unfold comment_stmt, set_cm; cbn [cm]. apply ok_cons_C0. apply ok_dir_code. repeat apply ok_app; auto. exact ok_C0.
     + (* SPhraseIf *)
       bind_in H. bind_in H. bind_in H. inversion H; subst; clear H. split_guard.
-      ih IHp E. destruct E as (Ho1 & (U1 & O1) & _).
-      ih IHp E0. destruct E0 as (Ho2 & (U2 & O2) & _).
-      ih IHss E1. destruct E1 as (Ho3 & U3 & O3).
-      split; [|fin_keeps].
+      ih IHp E. destruct E as ((Ho1 & A1) & _).
+      ih IHp E0. destruct E0 as ((Ho2 & A2) & _).
+      ih IHss E1. destruct E1 as (Ho3 & A3).
+      split; [|exact A3].
       unfold comment_stmt, set_cm; cbn [cm]. apply ok_cons_C0. apply ok_dir_code.
       apply ok_app; auto. apply ok_app; [|exact ok_C0].
       apply ok_dir_any. apply ok_cons_untagged. repeat apply ok_app; auto. exact ok_C0.
     + (* SSwitch *)
       bind_in H. bind_in H. bind_in H. inversion H; subst; clear H. split_guard.
-      ih IHo E. destruct E as (Ho1 & U1 & O1).
-      ih IHp E0. destruct E0 as (Ho2 & (U2 & O2) & _).
-      ih IHc E1. destruct E1 as (Ho3 & U3 & O3).
-      split; [|fin_keeps].
+      ih IHo E. destruct E as (Ho1 & A1).
+      ih IHp E0. destruct E0 as ((Ho2 & A2) & _).
+      ih IHc E1. destruct E1 as (Ho3 & A3).
+      split; [|exact A3].
       unfold comment_stmt, set_cm; cbn [cm]. apply ok_dir_header; auto. repeat apply ok_app; auto. exact ok_C0.
     + (* SSelect *)
       bind_in H. inversion H; subst; clear H.
-      ih IHc E. destruct E as (Ho1 & U1 & O1).
-      split; [|fin_keeps].
+      ih IHc E. destruct E as (Ho1 & A1).
+      split; [|exact A1].
       apply ok_dir_any. apply ok_cons_C0. apply ok_app; auto. destruct cs; [exact ok_nil|exact ok_C0].
     + (* SLabeled *)
       bind_in H. inversion H; subst; clear H.
-      ih IHs E. destruct E as (Ho1 & U1 & O1). split; [apply ok_cons_C0; exact Ho1|fin_keeps].
+      ih IHs E. destruct E as (Ho1 & A1). split; [apply ok_cons_C0; exact Ho1|exact A1].
   - (* compile_stmts *)
-    intros b st ls st' H Hn Hw. destruct b; cbn [compile_stmts refs_stmts wf_stmts] in H, Hn, Hw.
-    + inversion H; subst. split; [exact ok_nil|apply keeps_refl].
+    intros b st ls st' H Hw Ha. unfold P_res. destruct b; cbn [compile_stmts wf_stmts] in H, Hw.
+    + inversion H; subst. split; [exact ok_nil|exact Ha].
     + bind_in H. bind_in H. inversion H; subst; clear H. split_guard.
-      ih IHs E. destruct E as (Ho1 & U1 & O1).
-      ih IHss E0. destruct E0 as (Ho2 & U2 & O2).
-      split; [apply ok_app; auto|fin_keeps].
+      ih IHs E. destruct E as (Ho1 & A1).
+      ih IHss E0. destruct E0 as (Ho2 & A2).
+      split; [apply ok_app; auto|exact A2].
   - (* compile_ostmt *)
-    intros o st ls st' H Hn Hw. destruct o; cbn [compile_ostmt refs_ostmt wf_ostmt] in H, Hn, Hw.
-    + inversion H; subst. split; [exact ok_nil|apply keeps_refl].
+    intros o st ls st' H Hw Ha. unfold P_res. destruct o; cbn [compile_ostmt wf_ostmt] in H, Hw.
+    + inversion H; subst. split; [exact ok_nil|exact Ha].
     + apply IHs in H; auto.
   - (* compile_parts *)
-    intros ps st ls st' H Hn Hw. destruct ps; cbn [compile_parts refs_parts wf_parts] in H, Hn, Hw.
-    + inversion H; subst. split; [exact ok_nil|split; [apply keeps_refl|reflexivity]].
-    + cbn [noload forallb] in Hn. apply andb_prop in Hn as [Hg Hn].
-      apply negb_true_iff in Hg. rewrite Hg in H. cbn [bind] in H.
-      apply IHp in H; auto.
+    intros ps st ls st' H Hw Ha. unfold P_res. destruct ps; cbn [compile_parts wf_parts] in H, Hw.
+    + inversion H; subst. split; [split; [exact ok_nil|exact Ha]|reflexivity].
+    + (* PRef: the referred function may be loaded right here *)
+      destruct (memN g (unl st)) eqn:Em; rewrite ?Em in H; lazy beta match in H.
+      * match type of H with bind ?m _ = _ => destruct m as [st1| |] eqn:El; cbn [bind] in H; try discriminate H end.
+        apply IHl in El; [|unfold set_unl; cbn [outf]; exact Ha]. destruct El as (A1 & C1).
+        unfold set_unl in C1. cbn [cm] in C1.
+        apply IHp in H; auto. destruct H as (R & C2). split; [exact R|congruence].
+      * cbn [bind] in H. apply IHp in H; auto.
     + bind_in H. bind_in H. inversion H; subst; clear H. split_guard.
-      ih IHss E. destruct E as (Ho1 & U1 & O1).
-      ih IHp E0. destruct E0 as (Ho2 & (U2 & O2) & Hc2).
-      split; [|split].
+      ih IHss E. destruct E as (Ho1 & A1).
+      ih IHp E0. destruct E0 as ((Ho2 & A2) & Hc2).
+      split; [split|].
       * apply ok_app; auto.
-      * fin_keeps.
-      * rewrite Hc2. reflexivity.
+      * exact A2.
+      * exact Hc2.
     + bind_in H. bind_in H. inversion H; subst; clear H. split_guard.
-      ih IHp E. destruct E as (Ho1 & (U1 & O1) & Hc1).
-      ih IHp E0. destruct E0 as (Ho2 & (U2 & O2) & Hc2).
-      split; [|split].
+      ih IHp E. destruct E as ((Ho1 & A1) & Hc1).
+      ih IHp E0. destruct E0 as ((Ho2 & A2) & Hc2).
+      split; [split|].
       * apply ok_dir_any. apply ok_cons_untagged. apply ok_app; auto.
-      * fin_keeps.
+      * exact A2.
       * congruence.
   - (* compile_els *)
-    intros e st ls st' H Hn Hw. destruct e; cbn [compile_els refs_els wf_els] in H, Hn, Hw.
-    + inversion H; subst. split; [exact ok_C0|apply keeps_refl].
-    + bind_in H. inversion H; subst; clear H. ih IHss E. destruct E as (Ho1 & Hk1).
+    intros e st ls st' H Hw Ha. unfold P_res. destruct e; cbn [compile_els wf_els] in H, Hw.
+    + inversion H; subst. split; [exact ok_C0|exact Ha].
+    + bind_in H. inversion H; subst; clear H. ih IHss E. destruct E as (Ho1 & A1).
       split; auto.
       assert (A : ok (C0 :: l)) by (apply ok_cons_C0; exact Ho1).
       assert (B : ok (C0 :: l ++ [C0])) by (apply ok_cons_C0; apply ok_app; auto; exact ok_C0).
       destruct b as [|[] []]; auto.
-    + bind_in H. inversion H; subst; clear H. ih IHs E. destruct E as (Ho1 & Hk1).
+    + bind_in H. inversion H; subst; clear H. ih IHs E. destruct E as (Ho1 & A1).
       split; auto.
   - (* compile_clauses *)
-    intros cs st ls st' H Hn Hw. destruct cs; cbn [compile_clauses refs_clauses wf_clauses] in H, Hn, Hw.
-    + inversion H; subst. split; [exact ok_nil|apply keeps_refl].
+    intros cs st ls st' H Hw Ha. unfold P_res. destruct cs; cbn [compile_clauses wf_clauses] in H, Hw.
+    + inversion H; subst. split; [exact ok_nil|exact Ha].
     + bind_in H. bind_in H. bind_in H. bind_in H. inversion H; subst; clear H. split_guard.
-      ih IHp E. destruct E as (Ho1 & (U1 & O1) & _).
-      ih IHo E0. destruct E0 as (Ho2 & U2 & O2).
-      ih IHss E1. destruct E1 as (Ho3 & U3 & O3).
-      ih IHc E2. destruct E2 as (Ho4 & U4 & O4).
-      split; [|fin_keeps].
+      ih IHp E. destruct E as ((Ho1 & A1) & _).
+      ih IHo E0. destruct E0 as (Ho2 & A2).
+      ih IHss E1. destruct E1 as (Ho3 & A3).
+      ih IHc E2. destruct E2 as (Ho4 & A4).
+      split; [|exact A4].
       unfold comment_stmt, set_cm; cbn [cm].
       assert (Hrest : ok (l ++ l1 ++ (if ft then dir_line (cm s1) ++ [C0] else []) ++ l2)).
       { repeat apply ok_app; auto. destruct ft; [apply ok_dir_any; exact ok_C0|exact ok_nil]. }
       destruct comm; simpl.
       * apply ok_dir_code. exact Hrest.
       * apply ok_dir_any. apply ok_cons_C0. apply ok_app; auto.
+  - (* load_func *)
+    intros g st st' H Ha. cbn [load_func] in H.
+    destruct (find_func pr g) as [[g' p dp hd dk sh body|g' p dp hd dk body]|] eqn:Ef;
+      [|inversion H; subst; auto|inversion H; subst; auto].
+    match type of H with bind ?m _ = _ => destruct m as [[bl st1]| |] eqn:E; cbn [bind] in H; try discriminate H end.
+    inversion H; subst; clear H.
+    assert (Hd : wf_decl (DFunc g' p dp hd dk sh body) = true).
+    { unfold wf_prog in Hwf. rewrite forallb_forall in Hwf. apply Hwf. eapply find_func_In; eauto. }
+    cbn [wf_decl] in Hd. apply andb_prop in Hd as [Hdoc Hbody].
+    apply IHss in E; [|exact Hbody|unfold set_cm; cbn [outf]; exact Ha].
+    destruct E as (Hbl & A1). unfold add_out, set_cm. cbn [outf cm]. split; [|reflexivity].
+    apply all_ok_snoc; auto. apply ok_print_func; auto.
 Qed.
 
 Lemma P_zero : P_all 0.
-Proof. unfold P_all. refine (conj _ (conj _ (conj _ (conj _ (conj _ _))))); intros x st ls st' H; discriminate H. Qed.
+Proof.
+  unfold P_all. refine (conj _ (conj _ (conj _ (conj _ (conj _ (conj _ _))))));
+    [intros x st ls st' H; discriminate H ..|intros g st st' H; discriminate H].
+Qed.
 
 Lemma P_any f : P_all f.
 Proof. induction f; [exact P_zero|apply P_step; assumption]. Qed.
 
+(* ---------------- whole packages ---------------- *)
+
+Lemma load_decls_ok fuel : forall ds st st',
+  all_ok (outf st) -> load_decls pr fuel ds st = Ok st' -> all_ok (outf st').
+Proof.
+  induction ds as [|d t IH]; intros st st' Ha H.
+  - simpl in H. inversion H; subst. exact Ha.
+  - destruct d as [g p dp hd dk sh body|g p dp hd dk body]; cbn [load_decls] in H; [|eauto].
+    destruct (memN g (unl st)).
+    + destruct (load_func pr fuel g (set_unl (removeN g (unl st)) st)) as [st1| |] eqn:El; cbn [bind] in H; try discriminate H.
+      destruct (P_any fuel) as (_ & _ & _ & _ & _ & _ & Pl). unfold P_load in Pl. apply Pl in El; [|unfold set_unl; cbn [outf]; exact Ha].
+      destruct El as [A1 _]. eauto.
+    + cbn [bind] in H. eauto.
+Qed.
+
+Lemma load_methods_ok fuel : forall ds st st',
+  (forall d, In d ds -> wf_decl d = true) -> all_ok (outf st) ->
+  load_methods pr fuel ds st = Ok st' -> all_ok (outf st').
+Proof.
+  induction ds as [|d t IH]; intros st st' Hds Ha H.
+  - simpl in H. inversion H; subst. exact Ha.
+  - destruct d as [g p dp hd dk sh body|g p dp hd dk body]; cbn [load_methods] in H.
+    + apply (IH st st'); auto. intros d Hd. apply Hds. right. exact Hd.
+    + match type of H with bind ?m _ = _ => destruct m as [[bl st1]| |] eqn:E; cbn [bind] in H; try discriminate H end.
+      assert (Hd : wf_decl (DMethod g p dp hd dk body) = true) by (apply Hds; left; reflexivity).
+      cbn [wf_decl] in Hd. apply andb_prop in Hd as [Hdoc Hbody].
+      destruct (P_any fuel) as (_ & Pss & _). unfold P_stmts, P_res in Pss. apply Pss in E; [|exact Hbody|unfold set_cm; cbn [outf]; exact Ha].
+      destruct E as (Hbl & A1).
+      refine (IH _ st' _ _ H).
+      * intros d Hd. apply Hds. right. exact Hd.
+      * unfold add_out. cbn [outf]. apply all_ok_snoc; auto. apply ok_print_func; auto.
+Qed.
+
+Lemma compile_prog_ok fuel out : compile_prog fuel pr = Ok out -> all_ok out.
+Proof.
+  intros H. unfold compile_prog in H.
+  destruct (load_decls pr fuel pr _) as [st| |] eqn:E1; cbn [bind] in H; try discriminate H.
+  destruct (load_methods pr fuel pr st) as [st'| |] eqn:E2; cbn [bind] in H; try discriminate H.
+  inversion H; subst.
+  apply load_decls_ok in E1; [|intros g ls []].
+  eapply load_methods_ok in E2; eauto.
+  intros d Hd. unfold wf_prog in Hwf. rewrite forallb_forall in Hwf. auto.
+Qed.
+
 End Sound.
 
-(* ------------------------------------------------------------------ whole packages *)
+(* the property: in the Go text emitted for every function, the line holding the first code of a source
+   statement (and the header of the function) is attributed by Go to the XGo position of that statement *)
+Lemma directive_maps_first_line pr fuel out g ls i id t :
+  wf_prog pr = true ->
+  compile_prog fuel pr = Ok out -> In (g, ls) out ->
+  nth_error ls i = Some (Code id (Some t)) -> go_line_of ls i = Some t.
+Proof.
+  intros Hwf H Hin Hn. eapply ok_sound; eauto. eapply compile_prog_ok; eauto.
+Qed.
 
+(* lemmas about name lists used by the termination proof *)
 Lemma memN_app x a b : memN x (a ++ b) = memN x a || memN x b.
 Proof. induction a as [|y a IH]; simpl; auto. rewrite IH. now rewrite orb_assoc. Qed.
-
-Lemma removeN_notmem g l : memN g l = false -> removeN g l = l.
-Proof.
-  induction l as [|y l IH]; simpl; auto. intros H. apply orb_false_iff in H as [H1 H2].
-  rewrite H1. f_equal. auto.
-Qed.
 
 Lemma nodupb_app_cons a g b :
   nodupb (a ++ g :: b) = true -> memN g a = false /\ memN g b = false /\ nodupb (a ++ b) = true.
@@ -329,110 +403,6 @@ Proof.
   - intros _. now rewrite N.eqb_refl.
   - destruct d as [g' ? ? ? ? ? ?|? ? ? ? ? ?]; simpl; auto.
     intros H. apply orb_false_iff in H as [H1 H2]. rewrite H1. auto.
-Qed.
-
-Lemma ok_print_func p dp hd dk sh bl :
-  doc_ok p dp hd dk = true -> ok bl -> ok (print_func p dp hd dk sh bl).
-Proof.
-  intros Hd Hb. unfold print_func, doc_ok in *.
-  assert (Hrest : ok (bl ++ [C0])) by (apply ok_app; [exact Hb|exact ok_C0]).
-  destruct hd.
-  - destruct p as [[pf pl]|]; [|discriminate]. destruct dp as [[df dl]|]; [|discriminate].
-    apply andb_prop in Hd as [H1 H2]. apply N.eqb_eq in H1, H2. subst.
-    unfold ok. simpl. apply chk_docs. rewrite N2Nat.id. simpl. split; auto. apply chk_None_any. exact Hrest.
-  - apply N.eqb_eq in Hd. subst dk. simpl. destruct p as [[pf pl]|]; unfold ok; simpl.
-    + split; auto. apply chk_None_any. exact Hrest.
-    + exact Hrest.
-Qed.
-
-Section Whole.
-Variable pr : prog.
-
-Definition all_ok (o : list (N * list outline)) : Prop := forall g ls, In (g, ls) o -> ok ls.
-
-Lemma all_ok_snoc o g ls : all_ok o -> ok ls -> all_ok (o ++ [(g, ls)]).
-Proof.
-  intros H1 H2 g' ls' Hin. apply in_app_or in Hin as [Hin|Hin]; [eauto|].
-  destruct Hin as [E|[]]. inversion E; subst. exact H2.
-Qed.
-
-Lemma load_decls_ok fuel : forall ds pre st st',
-  pr = pre ++ ds -> nodupb (func_names pr) = true -> backward_refs ds = true ->
-  unl st = func_names ds -> all_ok (outf st) ->
-  load_decls pr fuel ds st = Ok st' ->
-  all_ok (outf st') /\ unl st' = [].
-Proof.
-  induction ds as [|d t IH]; intros pre st st' Hpr Hnd Hbw Hu Hok H.
-  - simpl in H. inversion H; subst. split; auto.
-  - destruct d as [g p dp hd dk sh body|g p dp hd dk body].
-    + cbn [load_decls] in H. cbn [backward_refs] in Hbw.
-      apply andb_prop in Hbw as [Hbw Hbt]. apply andb_prop in Hbw as [Hbw Hdoc].
-      apply andb_prop in Hbw as [Hnl Hwf].
-      assert (Hnames : func_names (DFunc g p dp hd dk sh body :: t) = g :: func_names t) by reflexivity.
-      rewrite Hnames in Hu.
-      pose proof Hnd as Hnd0. rewrite Hpr, func_names_app, Hnames in Hnd.
-      apply nodupb_app_cons in Hnd as (Hg1 & Hg2 & Hnd').
-      rewrite Hu in H. cbn [memN] in H. rewrite N.eqb_refl in H. cbn [orb removeN] in H.
-      rewrite N.eqb_refl in H. rewrite (removeN_notmem _ _ Hg2) in H.
-      destruct fuel as [|f]; [discriminate H|].
-      cbn [load_func] in H. rewrite Hpr in H. rewrite (find_func_app pre g p dp hd dk sh body t Hg1) in H.
-      rewrite <- Hpr in H.
-      match type of H with bind (bind ?m _) _ = _ => destruct m as [[bl st1]| |] eqn:E; cbn [bind] in H; try discriminate H end.
-      pose proof (P_any pr f) as (_ & Pss & _). unfold P_stmts in Pss.
-      apply Pss in E; [|unfold set_cm, set_unl; cbn [unl]; exact Hnl|exact Hwf].
-      destruct E as (Hbl & Hk). unfold keeps, set_cm, set_unl in Hk. cbn [unl outf] in Hk. destruct Hk as [Hk1 Hk2].
-      assert (A1 : pr = (pre ++ [DFunc g p dp hd dk sh body]) ++ t) by (rewrite <- app_assoc; exact Hpr).
-      assert (A2 : unl (add_out g (print_func p dp hd dk sh bl) st1) = func_names t)
-        by (unfold add_out; cbn [unl]; exact Hk1).
-      assert (A3 : all_ok (outf (add_out g (print_func p dp hd dk sh bl) st1))).
-      { unfold add_out. cbn [outf]. rewrite Hk2. apply all_ok_snoc; auto. apply ok_print_func; auto. }
-      exact (IH _ _ _ A1 Hnd0 Hbt A2 A3 H).
-    + cbn [load_decls] in H. cbn [backward_refs] in Hbw. apply andb_prop in Hbw as [_ Hbt].
-      assert (A1 : pr = (pre ++ [DMethod g p dp hd dk body]) ++ t) by (rewrite <- app_assoc; exact Hpr).
-      exact (IH _ _ _ A1 Hnd Hbt Hu Hok H).
-Qed.
-
-Lemma load_methods_ok fuel : forall ds st st',
-  backward_refs ds = true -> unl st = [] -> all_ok (outf st) ->
-  load_methods pr fuel ds st = Ok st' -> all_ok (outf st').
-Proof.
-  induction ds as [|d t IH]; intros st st' Hbw Hu Hok H.
-  - simpl in H. inversion H; subst. exact Hok.
-  - destruct d as [g p dp hd dk sh body|g p dp hd dk body]; cbn [load_methods backward_refs] in H, Hbw.
-    + apply andb_prop in Hbw as [_ Hbt]. eauto.
-    + apply andb_prop in Hbw as [Hbw Hbt]. apply andb_prop in Hbw as [Hwf Hdoc].
-      match type of H with bind ?m _ = _ => destruct m as [[bl st1]| |] eqn:E; cbn [bind] in H; try discriminate H end.
-      pose proof (P_any pr fuel) as (_ & Pss & _). unfold P_stmts in Pss.
-      apply Pss in E; [|unfold set_cm; cbn [unl]; rewrite Hu; apply noload_nil_U|exact Hwf].
-      destruct E as (Hbl & Hk). unfold keeps, set_cm in Hk. cbn [unl outf] in Hk. destruct Hk as [Hk1 Hk2].
-      eapply IH in H; auto.
-      * unfold add_out. cbn [unl]. congruence.
-      * unfold add_out. cbn [outf]. rewrite Hk2. apply all_ok_snoc; auto. apply ok_print_func; auto.
-Qed.
-
-Lemma compile_prog_ok fuel out :
-  nodupb (func_names pr) = true -> backward_refs pr = true ->
-  compile_prog fuel pr = Ok out -> all_ok out.
-Proof.
-  intros Hnd Hbw H. unfold compile_prog in H.
-  destruct (load_decls pr fuel pr _) as [st| |] eqn:E1; cbn [bind] in H; try discriminate H.
-  destruct (load_methods pr fuel pr st) as [st'| |] eqn:E2; cbn [bind] in H; try discriminate H.
-  inversion H; subst.
-  eapply (load_decls_ok fuel pr []) in E1; auto.
-  - destruct E1 as [A B]. eapply load_methods_ok in E2; eauto.
-  - intros g ls [].
-Qed.
-
-End Whole.
-
-(* the property: under the guards, every tagged line of every emitted function is attributed by Go to the
-   XGo position of the statement (or function) whose first code it holds *)
-Lemma directive_maps_first_line pr fuel out g ls i id t :
-  nodupb (func_names pr) = true -> backward_refs pr = true ->
-  compile_prog fuel pr = Ok out -> In (g, ls) out ->
-  nth_error ls i = Some (Code id (Some t)) -> go_line_of ls i = Some t.
-Proof.
-  intros Hnd Hbw H Hin Hn. eapply ok_sound; eauto. eapply compile_prog_ok; eauto.
 Qed.
 
 (* ------------------------------------------------------------------ termination: the fuel prog_fuel suffices *)
@@ -635,103 +605,88 @@ Qed.
 
 End FuelTop.
 
-(* ------------------------------------------------------------------ every statement is emitted, and nothing else is tagged *)
+
+(* ------------------------------------------------------------------ every statement is emitted, in order, and nothing else is tagged *)
 
 Lemma line_tags_app a b : line_tags (a ++ b) = line_tags a ++ line_tags b.
 Proof. unfold line_tags. apply flat_map_app. Qed.
+Lemma somes_app a b : somes (a ++ b) = somes a ++ somes b.
+Proof. unfold somes. apply flat_map_app. Qed.
 Lemma line_tags_dir c : line_tags (dir_line c) = [].
 Proof. destruct c as [[f l]|]; reflexivity. Qed.
 Lemma line_tags_docs n : line_tags (docs n) = [].
 Proof. induction n; simpl; auto. Qed.
-Lemma line_tags_code id p : forall t, In (Some t) (line_tags [Code id p]) <-> In (Some t) [p].
-Proof. intros t. destruct p as [x|]; simpl; [tauto|]. split; [tauto|]. intros [H|[]]. discriminate. Qed.
-Lemma line_tags_cons x ls : line_tags (x :: ls) = line_tags [x] ++ line_tags ls.
-Proof. change (x :: ls) with ([x] ++ ls). apply line_tags_app. Qed.
-Lemma line_tags_C0 : line_tags [C0] = [].
+Lemma line_tags_code id p ls : line_tags (Code id p :: ls) = somes [p] ++ line_tags ls.
+Proof. destruct p; reflexivity. Qed.
+Lemma line_tags_C0 ls : line_tags (C0 :: ls) = line_tags ls.
 Proof. reflexivity. Qed.
-Lemma line_tags_header id p init il : forall t,
-  In (Some t) (line_tags (header id p init il)) <-> In (Some t) (hdr_tag p init ++ (match init with ONone => [] | OSome _ => line_tags il end)).
-Proof.
-  intros t. destruct init; simpl header; simpl hdr_tag.
-  - rewrite app_nil_r. apply line_tags_code.
-  - rewrite line_tags_cons, line_tags_C0. simpl. tauto.
-Qed.
+Lemma somes_cons p l : somes (p :: l) = somes [p] ++ somes l.
+Proof. destruct p; reflexivity. Qed.
+Lemma line_tags_header id p init il :
+  line_tags (header id p init il) = somes (hdr_tag p init) ++ (match init with ONone => [] | OSome _ => line_tags il end).
+Proof. destruct init; cbn [header hdr_tag]; [rewrite line_tags_code; reflexivity|reflexivity]. Qed.
 
 Section Complete.
 Variable pr : prog.
 
-Definition same_tags (tags : list pos) (ls : list outline) : Prop :=
-  forall t, In (Some t) tags <-> In (Some t) (line_tags ls).
-
-Definition C_stmt (f : nat) : Prop := forall s st ls st', compile_stmt pr f s st = Ok (ls, st') -> same_tags (tags_stmt s) ls.
-Definition C_stmts (f : nat) : Prop := forall b st ls st', compile_stmts pr f b st = Ok (ls, st') -> same_tags (tags_stmts b) ls.
-Definition C_ostmt (f : nat) : Prop := forall o st ls st', compile_ostmt pr f o st = Ok (ls, st') -> same_tags (tags_ostmt o) ls.
-Definition C_parts (f : nat) : Prop := forall ps st ls st', compile_parts pr f ps st = Ok (ls, st') -> same_tags (tags_parts ps) ls.
-Definition C_els (f : nat) : Prop := forall e st ls st', compile_els pr f e st = Ok (ls, st') -> same_tags (tags_els e) ls.
-Definition C_clauses (f : nat) : Prop := forall cs st ls st', compile_clauses pr f cs st = Ok (ls, st') -> same_tags (tags_clauses cs) ls.
+Definition C_stmt (f : nat) : Prop := forall s st ls st', compile_stmt pr f s st = Ok (ls, st') -> line_tags ls = somes (tags_stmt s).
+Definition C_stmts (f : nat) : Prop := forall b st ls st', compile_stmts pr f b st = Ok (ls, st') -> line_tags ls = somes (tags_stmts b).
+Definition C_ostmt (f : nat) : Prop := forall o st ls st', compile_ostmt pr f o st = Ok (ls, st') -> line_tags ls = somes (tags_ostmt o).
+Definition C_parts (f : nat) : Prop := forall ps st ls st', compile_parts pr f ps st = Ok (ls, st') -> line_tags ls = somes (tags_parts ps).
+Definition C_els (f : nat) : Prop := forall e st ls st', compile_els pr f e st = Ok (ls, st') -> line_tags ls = somes (tags_els e).
+Definition C_clauses (f : nat) : Prop := forall cs st ls st', compile_clauses pr f cs st = Ok (ls, st') -> line_tags ls = somes (tags_clauses cs).
 Definition C_all (f : nat) : Prop := C_stmt f /\ C_stmts f /\ C_ostmt f /\ C_parts f /\ C_els f /\ C_clauses f.
 
 Ltac tagnorm :=
   repeat first [ rewrite line_tags_app | rewrite line_tags_dir | rewrite line_tags_docs | rewrite line_tags_C0
-               | rewrite in_app_iff | rewrite (line_tags_cons (Code _ _)) ];
-  cbn [app In].
+               | rewrite line_tags_code | rewrite line_tags_header | rewrite somes_app | rewrite (somes_cons _ (_ ++ _))
+               | rewrite (somes_cons _ (tags_parts _)) ];
+  cbn [app]; rewrite ?app_nil_r, <- ?app_assoc.
 
 Lemma C_step f : C_all f -> C_all (S f).
 Proof.
   intros (Is & Iss & Io & Ip & Ie & Ic).
-  unfold C_all, C_stmt, C_stmts, C_ostmt, C_parts, C_els, C_clauses, same_tags in *.
+  unfold C_all, C_stmt, C_stmts, C_ostmt, C_parts, C_els, C_clauses in *.
   refine (conj _ (conj _ (conj _ (conj _ (conj _ _))))).
-  - intros s st ls st' H t. destruct s; cbn [compile_stmt tags_stmt] in H |- *.
-    + bind_in H. inversion H; subst; clear H. specialize (Ip _ _ _ _ E t).
-      tagnorm. rewrite (line_tags_code id p t). cbn [In]. tauto.
-    + bind_in H. inversion H; subst; clear H. specialize (Ip _ _ _ _ E t).
-      tagnorm. rewrite (line_tags_code id p t). cbn [In]. tauto.
-    + bind_in H. inversion H; subst; clear H. specialize (Iss _ _ _ _ E t). tagnorm. tauto.
+  - intros s st ls st' H. destruct s; cbn [compile_stmt tags_stmt] in H |- *.
+    + bind_in H. inversion H; subst; clear H. apply Ip in E. tagnorm. rewrite E. reflexivity.
+    + bind_in H. inversion H; subst; clear H. apply Ip in E. tagnorm. rewrite E. reflexivity.
+    + bind_in H. inversion H; subst; clear H. apply Iss in E. tagnorm. rewrite E. reflexivity.
     + bind_in H. bind_in H. bind_in H. bind_in H. inversion H; subst; clear H.
-      specialize (Io _ _ _ _ E t). specialize (Ip _ _ _ _ E0 t). specialize (Iss _ _ _ _ E1 t). specialize (Ie _ _ _ _ E2 t).
-      tagnorm. rewrite (line_tags_header id p init l t). tagnorm. destruct init; cbn [tags_ostmt hdr_tag app In] in *; tauto.
+      apply Io in E. apply Ip in E0. apply Iss in E1. apply Ie in E2.
+      tagnorm. rewrite E0, E1, E2. destruct init; cbn [tags_ostmt app somes flat_map] in *; rewrite ?E; reflexivity.
     + bind_in H. bind_in H. bind_in H. bind_in H. inversion H; subst; clear H.
-      specialize (Io _ _ _ _ E t). specialize (Ip _ _ _ _ E0 t). specialize (Iss _ _ _ _ E1 t). pose proof (Io _ _ _ _ E2 t) as Io2.
-      tagnorm. rewrite (line_tags_header id p init l t). tagnorm. destruct init; cbn [tags_ostmt hdr_tag app In] in *; tauto.
-    + bind_in H. bind_in H. inversion H; subst; clear H.
-      specialize (Ip _ _ _ _ E t). specialize (Iss _ _ _ _ E0 t).
-      tagnorm. rewrite (line_tags_code id p t). cbn [In]. tauto.
-    + bind_in H. bind_in H. bind_in H. inversion H; subst; clear H.
-      specialize (Ip _ _ _ _ E t). pose proof (Ip _ _ _ _ E0 t) as Ip2. specialize (Iss _ _ _ _ E1 t).
-      tagnorm. rewrite (line_tags_code id p t). cbn [In]. tauto.
-    + bind_in H. bind_in H. bind_in H. inversion H; subst; clear H.
-      specialize (Io _ _ _ _ E t). specialize (Ip _ _ _ _ E0 t). specialize (Ic _ _ _ _ E1 t).
-      tagnorm. rewrite (line_tags_header id p init l t). tagnorm. destruct init; cbn [tags_ostmt hdr_tag app In] in *; tauto.
-    + bind_in H. inversion H; subst; clear H. specialize (Ic _ _ _ _ E t).
-      tagnorm. destruct cs; tagnorm; tauto.
-    + bind_in H. inversion H; subst; clear H. specialize (Is _ _ _ _ E t). tagnorm. tauto.
-  - intros b st ls st' H t. destruct b; cbn [compile_stmts tags_stmts] in H |- *.
-    + inversion H; subst. simpl. tauto.
-    + bind_in H. bind_in H. inversion H; subst; clear H.
-      specialize (Is _ _ _ _ E t). specialize (Iss _ _ _ _ E0 t). tagnorm. tauto.
-  - intros o st ls st' H t. destruct o; cbn [compile_ostmt tags_ostmt] in H |- *.
-    + inversion H; subst. simpl. tauto.
-    + exact (Is _ _ _ _ H t).
-  - intros ps st ls st' H t. destruct ps; cbn [compile_parts tags_parts] in H |- *.
-    + inversion H; subst. simpl. tauto.
-    + destruct (if memN g (unl st) then load_func pr f g (set_unl (removeN g (unl st)) st) else Ok st) as [x| |];
-        cbn [bind] in H; try discriminate. exact (Ip _ _ _ _ H t).
-    + bind_in H. bind_in H. inversion H; subst; clear H.
-      specialize (Iss _ _ _ _ E t). specialize (Ip _ _ _ _ E0 t). tagnorm. tauto.
-    + bind_in H. bind_in H. inversion H; subst; clear H.
-      specialize (Ip _ _ _ _ E t). pose proof (Ip _ _ _ _ E0 t) as Ip2. tagnorm. tauto.
-  - intros e st ls st' H t. destruct e; cbn [compile_els tags_els] in H |- *.
-    + inversion H; subst. simpl. tauto.
-    + bind_in H. inversion H; subst; clear H. specialize (Iss _ _ _ _ E t).
-      destruct b as [|[] []]; tagnorm; tauto.
-    + bind_in H. inversion H; subst; clear H. specialize (Is _ _ _ _ E t). tagnorm. tauto.
-  - intros cs st ls st' H t. destruct cs; cbn [compile_clauses tags_clauses] in H |- *.
-    + inversion H; subst. simpl. tauto.
+      apply Io in E. apply Ip in E0. apply Iss in E1. apply Io in E2.
+      tagnorm. rewrite E0, E1, E2. destruct init; cbn [tags_ostmt app somes flat_map] in *; rewrite ?E; reflexivity.
+    + bind_in H. bind_in H. inversion H; subst; clear H. apply Ip in E. apply Iss in E0.
+      tagnorm. rewrite E, E0. reflexivity.
+    + bind_in H. bind_in H. bind_in H. inversion H; subst; clear H. apply Ip in E. apply Ip in E0. apply Iss in E1.
+      tagnorm. rewrite E, E0, E1. reflexivity.
+    + bind_in H. bind_in H. bind_in H. inversion H; subst; clear H. apply Io in E. apply Ip in E0. apply Ic in E1.
+      tagnorm. rewrite E0, E1. destruct init; cbn [tags_ostmt app somes flat_map] in *; rewrite ?E; reflexivity.
+    + bind_in H. inversion H; subst; clear H. apply Ic in E. tagnorm. rewrite E. destruct cs; tagnorm; reflexivity.
+    + bind_in H. inversion H; subst; clear H. apply Is in E. tagnorm. exact E.
+  - intros b st ls st' H. destruct b; cbn [compile_stmts tags_stmts] in H |- *.
+    + inversion H; subst. reflexivity.
+    + bind_in H. bind_in H. inversion H; subst; clear H. apply Is in E. apply Iss in E0. tagnorm. rewrite E, E0. reflexivity.
+  - intros o st ls st' H. destruct o; cbn [compile_ostmt tags_ostmt] in H |- *.
+    + inversion H; subst. reflexivity.
+    + exact (Is _ _ _ _ H).
+  - intros ps st ls st' H. destruct ps; cbn [compile_parts tags_parts] in H |- *.
+    + inversion H; subst. reflexivity.
+    + match type of H with bind ?m _ = _ => destruct m as [x| |]; cbn [bind] in H; try discriminate H end.
+      exact (Ip _ _ _ _ H).
+    + bind_in H. bind_in H. inversion H; subst; clear H. apply Iss in E. apply Ip in E0. tagnorm. rewrite E, E0. reflexivity.
+    + bind_in H. bind_in H. inversion H; subst; clear H. apply Ip in E. apply Ip in E0. tagnorm. rewrite E, E0. reflexivity.
+  - intros e st ls st' H. destruct e; cbn [compile_els tags_els] in H |- *.
+    + inversion H; subst. reflexivity.
+    + bind_in H. inversion H; subst; clear H. apply Iss in E. destruct b as [|[] []]; tagnorm; rewrite ?app_nil_r; exact E.
+    + bind_in H. inversion H; subst; clear H. apply Is in E. tagnorm. exact E.
+  - intros cs st ls st' H. destruct cs; cbn [compile_clauses tags_clauses] in H |- *.
+    + inversion H; subst. reflexivity.
     + bind_in H. bind_in H. bind_in H. bind_in H. inversion H; subst; clear H.
-      specialize (Ip _ _ _ _ E t). specialize (Io _ _ _ _ E0 t). specialize (Iss _ _ _ _ E1 t). specialize (Ic _ _ _ _ E2 t).
-      tagnorm. destruct comm; cbn [hdr_tag tags_ostmt app In] in *.
-      * rewrite (line_tags_code id p t). destruct ft; tagnorm; cbn [In]; tauto.
-      * tagnorm. destruct ft; tagnorm; tauto.
+      apply Ip in E. apply Io in E0. apply Iss in E1. apply Ic in E2.
+      destruct comm; cbn [hdr_tag tags_ostmt] in *; destruct ft; tagnorm; rewrite ?E, ?E0, ?E1, ?E2; reflexivity.
 Qed.
 
 Lemma C_zero : C_all 0.
@@ -749,11 +704,19 @@ Proof.
   - intros (i & id & H). exists (Code id (Some t)). split; [eapply nth_error_In; eauto|simpl; auto].
 Qed.
 
-(* every positioned statement of a compiled statement list has a line tagged with its position, and every tagged
-   line comes from a statement *)
+Lemma in_somes l t : In (Some t) (somes l) <-> In (Some t) l.
+Proof.
+  unfold somes. rewrite in_flat_map. split.
+  - intros (x & Hin & Hx). destruct x as [t'|]; simpl in Hx; [|tauto]. destruct Hx as [E|[]]. congruence.
+  - intros H. exists (Some t). split; simpl; auto.
+Qed.
+
+(* the tagged lines of a compiled statement list are exactly its positioned statements, in source order *)
+Lemma stmts_tags_exact pr fuel b st ls st' :
+  compile_stmts pr fuel b st = Ok (ls, st') -> line_tags ls = somes (tags_stmts b).
+Proof. intros H. destruct (C_any pr fuel) as (_ & Css & _). exact (Css _ _ _ _ H). Qed.
+
 Lemma stmts_emitted pr fuel b st ls st' t :
   compile_stmts pr fuel b st = Ok (ls, st') ->
   (In (Some t) (tags_stmts b) <-> exists i id, nth_error ls i = Some (Code id (Some t))).
-Proof.
-  intros H. rewrite <- in_line_tags. destruct (C_any pr fuel) as (_ & Css & _). exact (Css _ _ _ _ H t).
-Qed.
+Proof. intros H. rewrite <- in_line_tags, (stmts_tags_exact _ _ _ _ _ _ H). symmetry. apply in_somes. Qed.
